@@ -228,7 +228,7 @@ def run(chk):
     chk.rule("D4", "helpers: no loops, no recursion, switches with reachable default, every division by a non-constant dominated by a non-zero test of the same value")
     chk.assumptions += [
         "rf_(un)pack_* never read or write outside [basep, endp) (C12), so reads are confined to the supplied bytes",
-        "strdup_printf (libc formatter) terminates and is memory safe",
+        "the libc formatter behind strdup_printf (vsnprintf, vsprintf) terminates and is memory safe; strdup_printf itself is checked (str.S1, str.S2)",
     ]
     m = wav.load()
     chk.note_unit(m)
@@ -246,3 +246,6 @@ def run(chk):
             C12.check_transfer(chk, mp, fn)
     chk.rule_prefix = ""
     chk.rule_filter = None
+    # the text itself is produced by strdup_printf: its contract (complete text, own buffer) is part of this property's clause
+    from . import strdep
+    strdep.import_into(chk)
